@@ -5,7 +5,8 @@
     [xcontract] (is there code).  Every theorem below quantifies over all oracles, all module addresses, all
     states and all messages / histories. *)
 From Teleport Require Import Base.Bytes Base.Outcome Model.Convert Model.ConvertTokens Model.ConvertCheck
-  Proofs.ConvertBase Proofs.ConvertExact Proofs.ConvertTokensLemmas Proofs.ConvertBacking Proofs.ConvertVoucher.
+  Proofs.ConvertBase Proofs.ConvertExact Proofs.ConvertTokensLemmas Proofs.ConvertBacking Proofs.ConvertVoucher
+  Proofs.ConvertHook Proofs.ConvertPlain Proofs.ConvertAbi Proofs.ConvertGap Proofs.ConvertMonitor Gen.Erc20AbiGen.
 Local Open Scope Z_scope.
 
 (** * Exact amount or nothing *)
@@ -73,14 +74,14 @@ Proof. exact convert_erc20_exact. Qed.
 Print Assumptions C11_convert_erc20_exact.
 
 (** On a contract deployed by the module (ERC20MinterBurnerDecimals semantics) the token side of flow 1.1 is,
-    explicitly: the receiver's token balance +a, totalSupply +a, every other holder, every other module
-    contract and the whole external world unchanged. *)
+    explicitly: the receiver's token balance +a, totalSupply +a, every other holder, every allowance, every
+    other module contract and the whole external world unchanged. *)
 Theorem C11_module_token_mint_ledger :
   forall X xcall MODULE (tk tk' : tokens X) c r a res t,
     mfind X tk c = Some t -> token_effect xcall MODULE tk tk' c MODULE (CMint r a) r a res ->
     exists t', mfind X tk' c = Some t' /\
       (forall x, zget (st_bal t') x = zget (st_bal t) x + ind (x =? r) a) /\
-      st_total t' = st_total t + a /\
+      st_total t' = st_total t + a /\ st_allow t' = st_allow t /\
       (forall c', c' <> c -> mfind X tk' c' = mfind X tk c') /\ snd tk' = snd tk.
 Proof. exact mint_ledger. Qed.
 Print Assumptions C11_module_token_mint_ledger.
@@ -91,7 +92,7 @@ Theorem C11_module_token_burn_ledger :
     mfind X tk c = Some t -> token_effect xcall MODULE tk tk' c MODULE (CBurnCoins u a) u (- a) res ->
     exists t', mfind X tk' c = Some t' /\ a <= zget (st_bal t) u /\
       (forall x, zget (st_bal t') x = zget (st_bal t) x + ind (x =? u) (- a)) /\
-      st_total t' = st_total t - a /\
+      st_total t' = st_total t - a /\ st_allow t' = st_allow t /\
       (forall c', c' <> c -> mfind X tk' c' = mfind X tk c') /\ snd tk' = snd tk.
 Proof. exact burn_ledger. Qed.
 Print Assumptions C11_module_token_burn_ledger.
@@ -146,21 +147,107 @@ Theorem C11_send_disabled_refused :
 Proof. exact send_disabled_refused. Qed.
 Print Assumptions C11_send_disabled_refused.
 
+(** * The ICS-20 hook (keeper/ibc_hook.go OnRecvPacket): ConvertCoin for the receiver of the packet, called
+    directly (no ValidateBasic, no BaseApp) on a cache branch.  [hook_recv s r d a] is the hook from the point
+    where the packet decoded to denomination [d], amount [a] and the 20-byte receiver [r] (Model/Convert.v). *)
+
+(** The message the hook builds carries the receiver as Address.Hex(); ConvertCoin parses it back to [r]. *)
+Theorem C11_hook_receiver_roundtrip : forall r, 0 <= r < 2 ^ 160 -> hex_to_addr (hex_of_addr r) = r.
+Proof. exact hex_roundtrip. Qed.
+Print Assumptions C11_hook_receiver_roundtrip.
+
+(** Whatever made the hook not convert — unregistered denomination, sdk.NewCoin panic, any error or panic of
+    ConvertCoin at any point (after the escrow step included) — nothing changed (state EQUAL). *)
+Theorem C11_hook_all_or_nothing :
+  forall X xcall xcontract MODULE (s : state X) r d a (s' : state X) c,
+    hook_recv xcall xcontract MODULE s r d a = (s', c) -> c <> 0%nat -> s' = s.
+Proof. exact hook_failure_changes_nothing. Qed.
+Print Assumptions C11_hook_all_or_nothing.
+
+(** When it converted, every gate was open for the receiver (module enabled, denomination registered, pair enabled,
+    receiver not blocked) ... *)
+Theorem C11_hook_passed_gates :
+  forall X xcall xcontract MODULE (s : state X) r d a (s' : state X),
+    hook_recv xcall xcontract MODULE s r d a = (s', 0%nat) -> 0 <= r < 2 ^ 160 ->
+    s_params s = true /\ denom_registered s d = true /\
+    exists p, cc_pair s (hook_msg r d a) = Ok p /\ p_enabled p = true /\ zmem r (s_blocked s) = false /\
+      get_pair s (get_denom_map s d) = Some p.
+Proof. exact hook_ok_gates. Qed.
+Print Assumptions C11_hook_passed_gates.
+
+(** ... and exactly [a] moved: out of the receiver's OWN coins of [d] (into the escrow / out of the supply), into the
+    token balance of the receiver's EVM address; nothing else (the statement of [C11_convert_coin_exact] with
+    sender = receiver = r). *)
+Theorem C11_hook_exact :
+  forall X xcall xcontract MODULE (s : state X) r d a (s' : state X) p,
+    hook_recv xcall xcontract MODULE s r d a = (s', 0%nat) -> 0 <= r < 2 ^ 160 -> cc_pair s (hook_msg r d a) = Ok p ->
+    let c := p_erc20 p in
+    if is_contract xcontract s c then
+      (p_owner p = 1 \/ p_owner p = 2) /\ 0 < a /\ a <= bget (s_bank s) r d /\
+      bank_shift s s' (fun x y => ind ((x =? r) && bytes_eqb y d) (- a)
+                                  + ind ((p_owner p =? 1) && (x =? MODULE) && bytes_eqb y d) a) /\
+      supply_shift s s' (fun y => ind ((p_owner p =? 2) && bytes_eqb y d) (- a)) /\
+      same_gates s s' /\ accts_plus s s' MODULE /\
+      exists res,
+        (if p_owner p =? 1
+         then token_effect xcall MODULE (s_tokens s) (s_tokens s') c MODULE (CMint r a) r a res
+         else token_effect2 xcall MODULE (s_tokens s) (s_tokens s') c MODULE (CTransfer r a) r a MODULE (- a) res) /\
+        (p_owner p = 2 -> unpack_bool (cr_ret res) = Some true /\ approval_check (cr_logs res) = Ok tt)
+    else s' = delete_pair s p.
+Proof. exact hook_exact. Qed.
+Print Assumptions C11_hook_exact.
+
+(** * The model's token interface is the deployed contract's, the model's EVM calls are the code's.
+    [erc20_abi] and [erc20_call_sites] are REGENERATED on every run (tools/gotocoq/erc20abi) from the ABI embedded into
+    syscontracts.ERC20MinterBurnerDecimalsJSON and from x/aggregate/keeper/msg_server.go.
+    (1) every call of the model's alphabet ([call]: what the module and anybody else can do to a token contract) is a
+        function of that ABI with the argument types, result and mutability the model assumes;
+    (2) every state-changing function of that ABI is in the alphabet, or is role-gated administration (pause, unpause,
+        grantRole, revokeRole, renounceRole: for a module-deployed contract only the module account holds the roles and it
+        never calls them) — so [OTokenCall] ranges over everything a third party can do to a module-deployed contract;
+    (3) the (method, from) pairs of the EVM calls in msg_server.go are exactly the model's: balanceOf / mint /
+        burnCoins / transfer FROM the module, transfer FROM the message's sender. *)
+Theorem C11_token_interface_tied :
+  (forall cl, exists ins outs mut,
+      abi_find (call_method cl) = Some (ins, (outs, mut)) /\
+      ins = call_inputs cl /\ outs = call_outputs cl /\ mut = call_mutates cl) /\
+  (forall name ins outs, In (name, (ins, (outs, true))) erc20_abi -> In name mutator_names \/ In name role_gated) /\
+  (forall site, In site go_sites <-> In site model_sites).
+Proof. exact token_interface_tied. Qed.
+Print Assumptions C11_token_interface_tied.
+
 (** * Backing of the contracts deployed by the module
     [Backed s]: for EVERY contract c deployed by the module, totalSupply(c) <= Σ over the pairs (owner = module,
     contract = c) of Σ over the pair's denominations d of the coins of d held by the module account.
     It is "<=", not "=": holders may burn their own tokens (ERC20Burnable.burn) and anybody may send coins to
     the module account; both only widen the gap ([C11_backing_can_be_strict] below).
     The invariant holds over EVERY history of messages (both directions, all four flows, any number of pairs /
-    denominations per pair / accounts / amounts, any external contracts), Ethereum transactions calling any token
-    contract, bank sends, governance toggles and parameter changes — provided no operation is signed by the
-    module account (nobody has its key) and the registry is well formed ([WF], property C12). *)
+    denominations per pair / accounts / amounts, any external contracts), ICS-20 packets reaching the hook,
+    Ethereum transactions calling any token contract, bank sends, coins minted by other modules, governance toggles
+    and parameter changes — provided no operation is signed by the module account (nobody has its key; the hook
+    never runs for it, see [signer]) and the registry is well formed ([WF], property C12). *)
 Theorem C11_native_coin_backing :
   forall X xcall xcontract MODULE (l : list op) (s : state X),
     Forall (not_module_signed MODULE) l -> WF s -> Backed MODULE s ->
     WF (run xcall xcontract MODULE s l) /\ Backed MODULE (run xcall xcontract MODULE s l).
 Proof. intros X xcall xcontract MODULE l s F W B. apply inv_run; [exact F | split; assumption]. Qed.
 Print Assumptions C11_native_coin_backing.
+
+(** Stronger, for conversions themselves: a conversion — MsgConvertCoin / MsgConvertERC20 delivered by BaseApp or an
+    ICS-20 packet handled by the hook, through ANY pair, succeeding or failing — leaves the gap
+    backing − totalSupply of EVERY module-deployed contract EXACTLY unchanged: conversions neither create unbacked
+    tokens nor strand escrowed coins.  (No assumption that the module account is a blocked address: flow 1.2 cannot
+    pay out to the module account itself — its coin-balance check fails — and the vouchers flow 2.1 may mint to it
+    back no module contract.)  The gap moves only through what third parties do (burning their own tokens, sending
+    or minting coins to the module account).  [not_module_signed] is necessary (Refuted/C11_refuted.v). *)
+Theorem C11_conversions_preserve_gap :
+  forall X xcall xcontract MODULE (s : state X) (o : op),
+    is_conversion o -> not_module_signed MODULE o -> WF s ->
+    forall c t', find_mtok (step xcall xcontract MODULE s o) c = Some t' ->
+      exists t, find_mtok s c = Some t /\
+        backing MODULE (step xcall xcontract MODULE s o) c - st_total t' = backing MODULE s c - st_total t.
+Proof. exact conversion_preserves_gap. Qed.
+Print Assumptions C11_conversions_preserve_gap.
 
 (** * Backing of the voucher of an external pair
     [VBacked MODULE ledger s]: for every pair (owner = external) listing ONLY its voucher v whose contract is not
@@ -169,18 +256,52 @@ Print Assumptions C11_native_coin_backing.
     successful call lowers the module's balance in any contract — EXCEPT the module's own transfer in the called
     contract, about which nothing is assumed: since the repair c5eeeaa the code compares the module's balance
     before and after; before it, a token charging the sender a fee broke the invariant, Refuted/C11_refuted.v).
-    Both hypotheses are necessary and cannot be established by the module (it can only ask the contract). *)
+    Both hypotheses are necessary (Refuted/C11_refuted.v: a misreporting token; a user-deployed
+    ERC20MinterBurnerDecimals whose deployer burns the module's escrow) and cannot be established by the module (it
+    can only ask the contract); both are satisfiable ([C11_voucher_hypotheses_satisfiable]).  Coins created by other
+    modules ([OEnvMint]) are of denominations that are not named "aggregate/..." ([no_voucher_mint]; the vouchers
+    are, [VNamed]: RegisterERC20 names them types.CreateDenom(address)). *)
 Theorem C11_voucher_backing :
   forall X xcall xcontract MODULE (ledger : X -> Z -> Z -> Z),
     honest_view xcall ledger -> others_cannot_debit xcall MODULE ledger ->
     forall (l : list op) (s : state X),
-      Forall (not_module_signed MODULE) l -> WFv s -> VBacked MODULE ledger s ->
-      WFv (run xcall xcontract MODULE s l) /\ VBacked MODULE ledger (run xcall xcontract MODULE s l).
+      Forall (not_module_signed MODULE) l -> Forall no_voucher_mint l ->
+      WFv s -> VNamed s -> VBacked MODULE ledger s ->
+      WFv (run xcall xcontract MODULE s l) /\ VNamed (run xcall xcontract MODULE s l) /\
+      VBacked MODULE ledger (run xcall xcontract MODULE s l).
 Proof.
-  intros X xcall xcontract MODULE ledger HV ND l s F W B.
-  apply (inv_v_run X xcall xcontract MODULE ledger HV ND); [exact F | split; assumption].
+  intros X xcall xcontract MODULE ledger HV ND l s F NV W VN B.
+  destruct (inv_v_run X xcall xcontract MODULE ledger HV ND l s F NV VN (conj W B)) as [[W' B'] VN'].
+  split; [exact W'|]. split; [exact VN' | exact B'].
 Qed.
 Print Assumptions C11_voucher_backing.
+
+(** * Monitor soundness (partial).  The monitors of Model/ConvertCheck.v are evaluated on observations of the REAL
+    code; their bank requirement (kind 28: every balance moved by exactly the listed deltas) and supply requirement
+    (kind 29) accept every successful message of the MODEL — so a failure of those monitors on a trace means the
+    trace is not the model's.  (Gate kinds 22–25 are the converse of [C11_success_passed_gates]; token kinds 30/31
+    compare observation lists and are validated on the explored traces only.) *)
+Theorem C11_monitor_accepts_model_convert_coin :
+  forall X xcall xcontract MODULE (s : state X) m (s' : state X) p,
+    deliver xcall xcontract MODULE s (MCC m) = (s', 0%nat) -> cc_pair s m = Ok p ->
+    is_contract xcontract s (p_erc20 p) = true ->
+    let modown := p_owner p =? 1 in
+    bank_delta_ok_m (s_bank s) (s_bank s')
+      (mon_bank_deltas MODULE true modown (cc_sender m) (hex_to_addr (cc_receiver m)) (cc_denom m) (cc_amount m)) = true /\
+    supply_delta_ok_m (s_supply s) (s_supply s') (cc_denom m) (mon_supply_delta true modown (cc_amount m)) = true.
+Proof. exact mon_bank_supply_sound_cc. Qed.
+Print Assumptions C11_monitor_accepts_model_convert_coin.
+
+Theorem C11_monitor_accepts_model_convert_erc20 :
+  forall X xcall xcontract MODULE (s : state X) m (s' : state X) p,
+    deliver xcall xcontract MODULE s (MCE m) = (s', 0%nat) -> ce_pair s m = Ok p ->
+    is_contract xcontract s (p_erc20 p) = true ->
+    let modown := p_owner p =? 1 in
+    bank_delta_ok_m (s_bank s) (s_bank s')
+      (mon_bank_deltas MODULE false modown (hex_to_addr (ce_sender m)) (ce_receiver m) (ce_denom m) (ce_amount m)) = true /\
+    supply_delta_ok_m (s_supply s) (s_supply s') (ce_denom m) (mon_supply_delta false modown (ce_amount m)) = true.
+Proof. exact mon_bank_supply_sound_ce. Qed.
+Print Assumptions C11_monitor_accepts_model_convert_erc20.
 
 (** * Non-vacuity: a concrete reachable history (module pair with two denominations, an external AdvToken
     pair, three users) on which the hypotheses hold, conversions in all four flows succeed, and after a holder
@@ -206,9 +327,9 @@ Definition ex_start : state xstate :=
      s_supply := [(B "acoin", 100); (B "bcoin", 100)];
      s_blocked := [ex_M]; s_send_default := true; s_send := [];
      s_accts := [ex_M; ex_u1; ex_u2];
-     s_mtok := [(ex_tokA, {| st_bal := []; st_total := 0 |})];
+     s_mtok := [(ex_tokA, {| st_bal := []; st_total := 0; st_allow := [] |})];
      s_ext := [(ex_tokB, {| et_kind := 5; et_owner := ex_u1; et_alive := true;
-                            et_std := {| st_bal := []; st_total := 0 |}; et_store := [(ex_u2, 500)] |})] |}.
+                            et_std := {| st_bal := []; st_total := 0; st_allow := [] |}; et_store := [(ex_u2, 500)] |})] |}.
 Definition ex_history : list op :=
   [ OMsg (MCC {| cc_denom := B "acoin"; cc_amount := 30; cc_receiver := ex_u2s; cc_sender := ex_u1; cc_sender_ok := true |});
     OMsg (MCC {| cc_denom := B "bcoin"; cc_amount := 40; cc_receiver := ex_u2s; cc_sender := ex_u2; cc_sender_ok := true |});
@@ -217,7 +338,11 @@ Definition ex_history : list op :=
     OTokenCall ex_tokA ex_u2 (CBurn 5);
     OMsg (MCE {| ce_contract := B "0xAd00000000000000000000000000000000000a01"; ce_amount := 70; ce_receiver := ex_u2;
                  ce_receiver_ok := true; ce_sender := ex_u2s; ce_denom := ex_vB |});
-    OMsg (MCC {| cc_denom := ex_vB; cc_amount := 30; cc_receiver := ex_u1s; cc_sender := ex_u2; cc_sender_ok := true |}) ].
+    OMsg (MCC {| cc_denom := ex_vB; cc_amount := 30; cc_receiver := ex_u1s; cc_sender := ex_u2; cc_sender_ok := true |});
+    (* an ICS-20 transfer credits 7 acoin to u1 and the hook converts them; a second packet for 1000 finds too few *)
+    OEnvMint ex_u1 (B "acoin") 7;
+    OHook ex_u1 (B "acoin") 7;
+    OHook ex_u1 (B "acoin") 1000 ].
 
 (** outcome classes of the messages / calls of a history *)
 Fixpoint ex_classes (s : state xstate) (l : list op) : list nat :=
@@ -227,6 +352,8 @@ Fixpoint ex_classes (s : state xstate) (l : list op) : list nat :=
       (match o with
        | OMsg m => snd (deliver xcall0 xcontract0 ex_M s m)
        | OTokenCall c k cl => snd (token_call xcall0 ex_M s c k cl)
+       | OHook r d a => snd (hook_recv xcall0 xcontract0 ex_M s r d a)
+       | OEnvMint t d a => snd (env_mint s t d a)
        | _ => 0%nat
        end) :: ex_classes (step xcall0 xcontract0 ex_M s o) l'
   end.
@@ -236,13 +363,83 @@ Definition ex_ledger (x : xstate) (c h : Z) : Z :=
 Example C11_backing_can_be_strict :
   let s := run xcall0 xcontract0 ex_M ex_start ex_history in
   Forall (not_module_signed ex_M) ex_history /\
-  ex_classes ex_start ex_history = [0; 0; 0; 0; 0; 0]%nat /\    (* everything succeeded *)
-  option_map st_total (find_mtok s ex_tokA) = Some 45 /\
-  bget (s_bank s) ex_M (B "acoin") = 30 /\ bget (s_bank s) ex_M (B "bcoin") = 20 /\
-  backing ex_M s ex_tokA = 50 /\
+  (* everything succeeded, except the hook's second conversion (1000 > balance): class 1, swallowed *)
+  ex_classes ex_start ex_history = [0; 0; 0; 0; 0; 0; 0; 0; 1]%nat /\
+  option_map st_total (find_mtok s ex_tokA) = Some 52 /\
+  bget (s_bank s) ex_M (B "acoin") = 37 /\ bget (s_bank s) ex_M (B "bcoin") = 20 /\
+  backing ex_M s ex_tokA = 57 /\
   sget (s_supply s) ex_vB = 40 /\ ex_ledger (s_ext s) ex_tokB ex_M = 40.
 Proof.
   cbv zeta. split.
   { repeat constructor; unfold not_module_signed; cbn; intro H; inversion H. }
   repeat split; vm_compute; reflexivity.
+Qed.
+
+(** * The hypotheses of [C11_voucher_backing] are satisfiable: a plain ERC-20 (balanceOf / transfer,
+    Model/ConvertTokens.v [plain_call]) as the external contract.  On a concrete history (two conversions into
+    vouchers, one back, a transfer between holders, an ICS-20 credit of another denomination) every hypothesis
+    holds, every step succeeds and 60 vouchers end up backed by exactly 60 escrowed tokens. *)
+Definition px_tok : Z := 0xbD00000000000000000000000000000000000b02.
+Definition px_v : bytes := B "aggregate/0xbD00000000000000000000000000000000000b02".
+Definition px_toks : bytes := B "0xbD00000000000000000000000000000000000b02".
+Definition px_pair : pair := {| p_id := ex_idB; p_erc20 := px_tok; p_denoms := [px_v]; p_enabled := true; p_owner := 2 |}.
+Definition px_start : state pstate :=
+  {| s_params := true; s_evm_call := true;
+     s_pairs := [(ex_idB, px_pair)]; s_erc20 := [(px_tok, ex_idB)]; s_denom := [(px_v, ex_idB)];
+     s_bank := []; s_supply := []; s_blocked := [ex_M]; s_send_default := true; s_send := [];
+     s_accts := [ex_M; ex_u1; ex_u2]; s_mtok := [];
+     s_ext := [(px_tok, [(ex_u1, 300); (ex_u2, 500)])] |}.
+Definition px_history : list op :=
+  [ OMsg (MCE {| ce_contract := px_toks; ce_amount := 70; ce_receiver := ex_u2; ce_receiver_ok := true;
+                 ce_sender := ex_u2s; ce_denom := px_v |});
+    OMsg (MCE {| ce_contract := px_toks; ce_amount := 20; ce_receiver := ex_u2; ce_receiver_ok := true;
+                 ce_sender := ex_u1s; ce_denom := px_v |});
+    OTokenCall px_tok ex_u2 (CTransfer ex_u1 5);
+    OEnvMint ex_u1 (B "ibc/27394FB092D2ECCD56123C74F36E4C1F926001CEADA9CA97EA622B25F41E5EB2") 9;
+    OMsg (MCC {| cc_denom := px_v; cc_amount := 30; cc_receiver := ex_u1s; cc_sender := ex_u2; cc_sender_ok := true |}) ].
+Fixpoint px_classes (s : state pstate) (l : list op) : list nat :=
+  match l with
+  | [] => []
+  | o :: l' =>
+      (match o with
+       | OMsg m => snd (deliver plain_call plain_contract ex_M s m)
+       | OTokenCall c k cl => snd (token_call plain_call ex_M s c k cl)
+       | OEnvMint t d a => snd (env_mint s t d a)
+       | _ => 0%nat
+       end) :: px_classes (step plain_call plain_contract ex_M s o) l'
+  end.
+
+Example C11_voucher_hypotheses_satisfiable :
+  honest_view plain_call plain_ledger /\ others_cannot_debit plain_call ex_M plain_ledger /\
+  Forall (not_module_signed ex_M) px_history /\ Forall no_voucher_mint px_history /\
+  WFv px_start /\ VNamed px_start /\ VBacked ex_M plain_ledger px_start /\
+  let s := run plain_call plain_contract ex_M px_start px_history in
+  px_classes px_start px_history = [0; 0; 0; 0; 0]%nat /\
+  sget (s_supply s) px_v = 60 /\ plain_ledger (s_ext s) px_tok ex_M = 60 /\
+  plain_ledger (s_ext s) px_tok ex_u1 = 315 /\ VBacked ex_M plain_ledger s.
+Proof.
+  assert (W : WFv px_start).
+  { split; [split; [|split; [|split]]|]; cbn [px_start s_pairs s_denom map fst].
+    - repeat constructor. intros [].
+    - intros id p [H|[]]. inversion H; subst. cbn [px_pair p_id p_denoms]. split; [reflexivity|].
+      split; [repeat constructor; intros []|]. intros d [<-|[]]. vm_compute. reflexivity.
+    - intros d p H. cbn [aget] in H. destruct (bytes_eqb px_v d) eqn:E.
+      + apply bytes_eqb_eq in E; subst d. vm_compute in H. inversion H; subst. left; reflexivity.
+      + vm_compute in H. discriminate.
+    - intros p [H|[]]. inversion H.
+    - intros id p id' p' [H|[]] [H'|[]]. inversion H; inversion H'; subst. reflexivity. }
+  assert (VN : VNamed px_start).
+  { intros id p v [H|[]] _ D. inversion H; subst. cbn in D. inversion D; subst. vm_compute. reflexivity. }
+  assert (VB : VBacked ex_M plain_ledger px_start).
+  { intros id p v [H|[]] _ D _. inversion H; subst. cbn in D. inversion D; subst. vm_compute. discriminate. }
+  assert (F : Forall (not_module_signed ex_M) px_history).
+  { repeat constructor; unfold not_module_signed; cbn; intro H; inversion H. }
+  assert (NV : Forall no_voucher_mint px_history).
+  { repeat constructor. }
+  split; [exact plain_honest_view|]. split; [exact (plain_others_cannot_debit ex_M)|].
+  repeat (split; [assumption|]). cbv zeta.
+  split; [vm_compute; reflexivity|]. split; [vm_compute; reflexivity|]. split; [vm_compute; reflexivity|].
+  split; [vm_compute; reflexivity|].
+  exact (proj2 (proj2 (C11_voucher_backing pstate plain_call plain_contract ex_M plain_ledger plain_honest_view
+                         (plain_others_cannot_debit ex_M) px_history px_start F NV W VN VB))).
 Qed.
